@@ -127,8 +127,13 @@ def float_out_buffers(ctx, chk, q=None, rule="R13.9"):
 
     def float_buffer(e, depth=0, fi=fi):
         if isinstance(e, ast.Name) and depth < 3:
-            binds = [n.value for n in ast.walk(fi.node) if isinstance(n, ast.Assign) and len(n.targets) == 1 and isinstance(n.targets[0], ast.Name) and n.targets[0].id == e.id]
-            return bool(binds) and all(float_buffer(b, depth + 1, fi) for b in binds)
+            # the binding that reaches this use: the last assignment of the name above it (`p = np.full_like(...); p = np.divide(..., out=p)`)
+            binds = [n for n in ast.walk(fi.node) if isinstance(n, ast.Assign) and len(n.targets) == 1 and isinstance(n.targets[0], ast.Name) and n.targets[0].id == e.id
+                     and n.lineno < getattr(e, "lineno", 10 ** 9)]
+            if not binds:
+                return False
+            last = max(binds, key=lambda n: n.lineno)
+            return float_buffer(last.value, depth + 1, fi)
         if isinstance(e, ast.Call) and isinstance(e.func, ast.Attribute) and isinstance(e.func.value, ast.Name) and e.func.value.id in ("np", "numpy"):
             dt = next((ast.unparse(k.value) for k in e.keywords if k.arg == "dtype"), None)
             if e.func.attr in ("zeros", "ones", "empty", "full"):
